@@ -5,7 +5,7 @@
     MODELLED engine (Model/IgnoreEngine.v: aghnet.NewIgnoreEngine for plain
     names, [||d^], wildcards, [|.^], substrings, in any letter case). *)
 From AGH Require Import Base.Run Base.RuleEngine Model.ClientIndex Model.IgnoreEngine Model.LogPolicy.
-From AGH Require Import Proofs.LogPolicy Proofs.IgnoreEngine.
+From AGH Require Import Proofs.ClientIndex Proofs.LogPolicy Proofs.LogWiring Proofs.IgnoreEngine.
 Local Open Scope N_scope.
 
 (** After ANY history of queries (each under its own configuration, ignore
@@ -176,6 +176,112 @@ Theorem C08_configured_anon_masks : forall enabled anon ops ev q,
   recorded_ip ev q = anonymize (fst (q_addr q)) /\ masked (recorded_ip ev q).
 Proof. exact configured_anon_masks. Qed.
 Print Assumptions C08_configured_anon_masks.
+
+(** * Round 4 (G): the anonymiser as a shared object, configuration requests
+      as operations of the history *)
+
+(** The object graph: aghnet.IPMut cells on a heap; home.initDNS makes ONE cell
+    from the configured flag and hands it to querylog.New and to
+    dnsforward.NewServer ([init_dns], [new_server]); the two handlers store into
+    the query log's cell ([sys_step]); processQueryLogsAndStats loads the
+    server's ([srv_anon]), the report the query log's ([qlog_anon]).  After ANY
+    history of configuration requests (both handlers, any subset of optional
+    fields), queries, flushes, rotations, roll-overs: both load the CONFIGURED
+    function. *)
+Theorem C08_server_reads_configured_flag : forall enabled anon ops,
+  let s := fst (hrun ops (init_dns enabled anon, empty_store)) in
+  srv_anon s = s_anon s /\ qlog_anon s = s_anon s.
+Proof. exact server_reads_configured_flag. Qed.
+Print Assumptions C08_server_reads_configured_flag.
+
+(** The query log's view of the system is the configuration record of
+    [C08_anonymizer_in_sync] (refinement of the handlers). *)
+Theorem C08_system_refines_conf : forall s o, (s_qlog_mut s < length (s_heap s))%nat ->
+  sys_conf (sys_step s o) = conf_step (sys_conf s) o.
+Proof. exact sys_conf_step. Qed.
+Print Assumptions C08_system_refines_conf.
+
+(** At every reachable state with anonymisation configured on, the next query
+    is recorded with the masked address. *)
+Theorem C08_configured_on_recorded_masked : forall enabled anon ops w q,
+  let s := fst (hrun ops (init_dns enabled anon, empty_store)) in
+  s_anon s = true ->
+  recorded_ip (env_at s w) q = anonymize (fst (q_addr q)) /\ masked (recorded_ip (env_at s w) q).
+Proof. exact configured_on_recorded_masked. Qed.
+Print Assumptions C08_configured_on_recorded_masked.
+
+(** A history with configuration requests is a history of the theorems above,
+    every query under the environment of its moment: never-stored, exactness
+    and across-rotation hold of it. *)
+Theorem C08_history_is_run_log : forall enabled anon ops,
+  snd (hrun ops (init_dns enabled anon, empty_store)) = run_log (hlev ops (init_dns enabled anon)).
+Proof. exact history_is_run_log. Qed.
+Print Assumptions C08_history_is_run_log.
+
+(** For all histories [pre], a request [o] that switches anonymisation on
+    (either handler) and any continuation [post] that does not switch it off:
+    whatever the memory buffer, querylog.json, querylog.json.1 and the
+    statistics (stored units and the current one) hold at the end either was
+    there before the switch or is the record of a query of [post] with the
+    MASKED address. *)
+Theorem C08_anonymised_after_switch : forall enabled anon pre o post,
+  turns_on o = true -> forallb keeps_on post = true ->
+  let before := snd (hrun pre (init_dns enabled anon, empty_store)) in
+  let after := snd (hrun (pre ++ HConf o :: post) (init_dns enabled anon, empty_store)) in
+  (forall e, In e (all_log after) -> In e (all_log before) \/ masked_record_of post e) /\
+  (forall x, In x (all_stats after) -> In x (all_stats before) \/ masked_stat_of post x).
+Proof. exact anonymised_after_switch. Qed.
+Print Assumptions C08_anonymised_after_switch.
+
+Example C08_after_switch_example :
+  turns_on (CLegacy None (Some true)) = true /\ forallb keeps_on ex_post = true /\
+  let after := snd (hrun (ex_pre ++ HConf (CLegacy None (Some true)) :: ex_post) (init_dns true false, empty_store)) in
+  st_old after = [([97], [1;2;3;4], []); ([98], [1;2;0;0], []); ([99], [32;1;13;184;0;1;0;0;0;0;0;0;0;0;0;0], [105])] /\
+  st_mem after = [([100], [10;9;0;0], [])] /\
+  st_units after = [[([97], [], [1;2;3;4]); ([98], [], [1;2;0;0]); ([99], [105], [])]] /\
+  st_stats after = [([100], [], [10;9;0;0])].
+Proof. exact after_switch_example. Qed.
+
+(** Why the sharing is part of the model: a server holding a private IPMut
+    with the function of construction time records full addresses after the
+    switch while configuration and report say "on". *)
+Example C08_private_mutator_refuted :
+  let st := hrun [HConf (CPut true true); HQuery ex_world (ex_q [98;46] [1;2;3;4] [])]
+                 (init_dns_private_copy true false, empty_store) in
+  s_anon (fst st) = true /\ qlog_anon (fst st) = true /\ srv_anon (fst st) = false /\
+  st_mem (snd st) = [([98], [1;2;3;4], [])] /\ st_stats (snd st) = [([98], [], [1;2;3;4])].
+Proof. exact private_copy_refuted. Qed.
+
+(** * Round 4 (H): nested CIDRs *)
+(** For every registry reachable by any history of client operations: a request
+    without a known ClientID whose address nobody lists exactly, from inside a
+    prefix [p] of client [c], every OTHER stored prefix containing the address
+    being strictly broader, is attributed to [c]; if [c] is marked it is
+    recorded nowhere, whatever flags the owners of the broader prefixes have. *)
+Theorem C08_narrowest_cidr_decides : forall cfg ops ev q st p u c,
+  e_ix ev = run cfg ops empty_index ->
+  find_by_cid (e_ix ev) [] = None ->
+  find_by_cid (e_ix ev) (q_cid q) = None ->
+  zget (q_addr q) (ip_to (e_ix ev)) = None ->
+  deref (e_ix ev) u = Some c -> In p (c_subnets c) ->
+  contains p (fst (q_addr q)) = true ->
+  (forall p' u', owner_of (e_ix ev) c_subnets p' u' -> contains p' (fst (q_addr q)) = true ->
+     p' = p \/ snd p' < snd p) ->
+  find_by_ip (e_ix ev) (q_addr q) = Some u /\
+  (c_ignore_qlog c = true -> st_mem (process ev q st) = st_mem st) /\
+  (c_ignore_stats c = true -> st_stats (process ev q st) = st_stats st).
+Proof. exact narrowest_cidr_decides. Qed.
+Print Assumptions C08_narrowest_cidr_decides.
+
+Example C08_narrowest_cidr_example :
+  find_by_cid nest_ix [] = None /\ zget ([192;168;5;9], []) (ip_to nest_ix) = None /\
+  deref nest_ix 2 = Some (wit_client 2 [107] [] [([192;168;5;0], 24)] [] true true) /\
+  contains ([192;168;5;0], 24) [192;168;5;9] = true /\ contains ([192;168;0;0], 16) [192;168;5;9] = true /\
+  map fst (subnet_to nest_ix) = [([192;168;5;0], 24); ([192;168;0;0], 16)] /\
+  find_by_ip nest_ix ([192;168;5;9], []) = Some 2 /\
+  process nest_env (nest_q [192;168;5;9]) empty_store = empty_store /\
+  st_mem (process nest_env (nest_q [192;168;7;9]) empty_store) = [([111;107], [192;168;7;9], [])].
+Proof. exact narrowest_cidr_example. Qed.
 
 (** * The modelled ignore engine (aghnet.NewIgnoreEngine) *)
 
